@@ -6,4 +6,6 @@ python3 - <<'PY'
 from fv import server
 b, t = server.build("dev")
 print("built", b, "in %.1fs" % t)
+from fv import rsbin
+print("built in-process harness:", rsbin.build())
 PY
